@@ -79,8 +79,18 @@ def r2_flatten(rule, root=None):
         rule.bad("remap_xyz", "remap_xyz builds RemapAxes %s" % f, A.where(fn))
 
 
+_IMP = {}
+
+
 def _import(root=None):
-    return A.find_fn(CTX, "import", self_ty="Context", root=root)
+    """Context::import, read with private same-file helpers expanded in place"""
+    key = root or A.REPO
+    if key not in _IMP:
+        fn0 = A.find_fn(CTX, "import", self_ty="Context", root=root)
+        fn = dict(fn0)
+        fn["body"] = A.inline_helpers(fn0)
+        _IMP[key] = fn
+    return _IMP[key]
 
 
 def frame_stacks(fn):
@@ -222,12 +232,17 @@ def r5_axis_roles(rule, root=None):
         return
     loop = loops[0]
     ivar = A.binding_name(loop["pat"])
-    blk = None
-    for b in A.find(fn["body"], "Block"):
-        if any(A.strip(A.stmt_expr(s_) or {}) is loop for s_ in b["stmts"]):
-            blk = b
-    bt = A.ftxt(blk) if blk is not None else A.ftxt(fn["body"])
-    m = bt.fmatch("let($X,$Y,$Z)=%s.last().unwrap();" % axes_n)
+    # the blocks around the loop, innermost first (the loop may sit in an expanded helper body)
+    around = sorted([b for b in A.find(fn["body"], "Block") if any(n is loop for n in A.walk(b))], key=lambda b: -b.get("ln", 0))
+    bt = None
+    m = None
+    for b in around:
+        bt_ = A.ftxt(b)
+        m = bt_.fmatch("let($X,$Y,$Z)=%s.last().unwrap();" % axes_n) or bt_.fmatch("let($X,$Y,$Z)=*%s.last().unwrap();" % axes_n)
+        if m is not None:
+            bt = bt_
+            outer_blk = b
+            break
     if m is None:
         rule.bad("affine|frame", "the affine frame must be computed from the current frame's (x, y, z): `let (x, y, z) = %s.last().unwrap()`" % axes_n, A.where(fn, loop))
         return
@@ -305,7 +320,18 @@ def r5_axis_roles(rule, root=None):
     except (S.Untranslatable, KeyError, TypeError, IndexError) as e:
         rule.bad("affine|row|shape", "affine row construction not understood (%s)" % e, A.where(fn, loop))
     m2 = bt.fmatch("let[$A,$B,$C]=out.map(Option::unwrap);")
-    if m2 is not None and bt.fmatch("%s.push(($A,$B,$C));" % axes_n, bind=m2) is not None:
+    pushed_ok = False
+    if m2 is not None:
+        if bt.fmatch("%s.push(($A,$B,$C));" % axes_n, bind=m2) is not None:
+            pushed_ok = True
+        else:
+            # pushed as the value of a block / helper result: `axes.push({ ..; (a, b, c) })`
+            for c in A.find(outer_blk, "MethodCall"):
+                if c["method"] == "push" and A.ident(A.strip(c["recv"])) == axes_n and len(c["args"]) == 1:
+                    for leaf, _cs in A.value_cases(c["args"][0]):
+                        if str(A.ftxt(leaf)) == "(%s,%s,%s)" % (m2["$A"], m2["$B"], m2["$C"]):
+                            pushed_ok = True
+    if pushed_ok:
         rule.ok("the affine frame is built from, and pushed as, (x, y, z) of the current frame")
     else:
         rule.bad("affine|frame", "the affine frame must be computed from the current frame's (x, y, z) and pushed as (x, y, z)", A.where(fn))
